@@ -13,6 +13,7 @@ import (
 	"path/filepath"
 	"strconv"
 	"strings"
+	"unicode/utf8"
 
 	sdk "github.com/cosmos/cosmos-sdk/types"
 
@@ -147,6 +148,17 @@ func pureExec(line string) string {
 			return "ok " + h
 		case "fhash":
 			return "ok " + feeder.GeneratePrevoteHash(itypes.VoteDataArr(world.ParseVoteData(f[2])), S(f[1]))
+		case "utf8": // utf8.ValidString, and what the string is after the module codec's JSON encoding and decoding
+			in := S(f[1])
+			bz, err := stypes.ModuleCdc.MarshalJSON(&stypes.MsgCancel{RequestId: in})
+			if err != nil {
+				return "err"
+			}
+			var back stypes.MsgCancel
+			if err := stypes.ModuleCdc.UnmarshalJSON(bz, &back); err != nil {
+				return "err"
+			}
+			return fmt.Sprintf("ok %t %s", utf8.ValidString(in), world.EncStr(back.RequestId))
 		case "trim":
 			return "ok " + world.EncStr(itypes.TrimHexZeroes(S(f[1])))
 		case "ownerof": // contract token: the eth_call the feeder sends for ownerOf(token)
@@ -248,6 +260,23 @@ var hexish = []string{"0x1", "0x01", "1", "0X1", "0xABCDEF", "abcdef", "0x", "",
 	"0x1ffffffffffffffffffffffffffffffffffffffffffffffffffffffffffffff0", "0x0101010101010101010101010101010101010101", "0x123", "0x0123", "0x00000123", "0x1g", "0xa b"}
 var chainish = []string{"1", "137", "eth-2", "settlus_5371-1", "", "a/b", "eip155:1", " ", "999"}
 
+// randBytes: byte strings around the edges of UTF-8 well-formedness (overlongs, surrogates, truncated and stray continuation bytes)
+func randBytes(r *rng.R) string {
+	pieces := []string{"a", "r1", "\x00", "\x7f", "\x80", "\xbf", "\xc0\xaf", "\xc1\xbf", "\xc2\x80", "\xdf\xbf", "\xc2", "\xe0\x80\x80", "\xe0\xa0\x80", "\xe0\x9f\xbf",
+		"\xed\x9f\xbf", "\xed\xa0\x80", "\xee\x80\x80", "\xef\xbf\xbd", "\xe2\x82\xac", "\xe2\x82", "\xe2", "\xf0\x90\x80\x80", "\xf0\x8f\xbf\xbf", "\xf4\x8f\xbf\xbf",
+		"\xf4\x90\x80\x80", "\xf5\x80\x80\x80", "\xf0\x90\x80", "\xf0\x90", "\xf0", "\xff", "\xfe", "\"", "\\", "<", "\xe2\x80\xa8"}
+	n := r.N(5)
+	out := ""
+	for i := 0; i < n; i++ {
+		if r.P(1, 5) {
+			out += string([]byte{byte(r.N(256))})
+		} else {
+			out += rng.Pick(r, pieces)
+		}
+	}
+	return out
+}
+
 func randHex(r *rng.R) string {
 	if r.P(2, 3) {
 		return rng.Pick(r, hexish)
@@ -323,7 +352,9 @@ func genPure(r *rng.R, n int) []string {
 	add := func(format string, a ...interface{}) { ops = append(ops, fmt.Sprintf(format, a...)) }
 	E := world.EncStr
 	for i := 0; i < n; i++ {
-		switch r.N(17) {
+		switch r.N(18) {
+		case 17:
+			add("utf8 %s", E(randBytes(r)))
 		case 16:
 			// the lookup the feeder makes for a recorded NFT: normalised contract, token id as the chain stores it (or as submitted)
 			tok := randHexDigits(r)
